@@ -275,6 +275,10 @@ type msgpipelineDelivery struct {
 	deliveries  map[module.DeliveryTarget]*delivery
 	msgMeta     *module.MsgMetadata
 	checkRunner *checkRunner
+
+	// Set by BodyNonAtomic if it reported the failure for all recipients
+	// without passing the body to the targets.
+	bodyRejected bool
 }
 
 func (dd *msgpipelineDelivery) AddRcpt(ctx context.Context, to string, opts smtp.RcptOptions) error {
@@ -450,6 +454,7 @@ func (sc statusCollector) SetStatus(rcptTo string, err error) {
 
 func (dd *msgpipelineDelivery) BodyNonAtomic(ctx context.Context, c module.StatusCollector, header textproto.Header, body buffer.Buffer) {
 	setStatusAll := func(err error) {
+		dd.bodyRejected = true
 		for _, delivery := range dd.deliveries {
 			for _, rcpt := range delivery.recipients {
 				c.SetStatus(rcpt, err)
@@ -502,6 +507,12 @@ func (dd *msgpipelineDelivery) BodyNonAtomic(ctx context.Context, c module.Statu
 }
 
 func (dd msgpipelineDelivery) Commit(ctx context.Context) error {
+	if dd.bodyRejected {
+		// BodyNonAtomic failed for all recipients before the body was passed
+		// to any target, there is nothing to commit.
+		return dd.Abort(ctx)
+	}
+
 	dd.close()
 
 	// Every delivery has to be closed, so keep going after a failure. The
